@@ -21,7 +21,7 @@ RULE = (
     " The C++ runtime is explored for all four control x calibration instantiations in both tiers (quick: two of them on a reduced step / start-time menu)."
     " The Python stand-in carries a real formak Config (for three step sizes with every field away from its default)."
     " Long moves: for max steps of 1/3 us and 1/30000 s (not whole numbers of nanoseconds) ticks that travel 1200, 2500.5 and 30011.25 "
-    "steps (thorough: up to 300000.75) away from the start time and back, forward and backward, from both start times; same invariant."
+    "steps (thorough: up to 300000.75) away from the start time and back, forward and backward, from both start times; same invariant (C++ runtime: the 1200- and 2500.5-step moves, quick two instantiations, thorough all four)."
 )
 ASSUMPTIONS = [
     "times of moderate magnitude (|t| <= 1000 + 8h) so that 1e-9 s exceeds the spacing of doubles",
@@ -32,7 +32,7 @@ HS_QUICK = [0.1, 0.05, 0.25]
 HS_ALL = [0.1, 0.05, 0.01, 0.25, 0.3, 1.0, 1.0 / 30.0]
 T0_QUICK = [0.0, 10.0]
 T0_ALL = [0.0, 10.0, -3.0, 1000.0]
-LONG_HS = [1e-6 / 3.0, 1.0 / 30000.0]
+LONG_HS = [1.0 / 3000000.0, 1.0 / 30000.0]
 LONG_NS = [1200, 2500.5, 30011.25]
 LONG_NS_THOROUGH = [100003, 300000.75, 999.999]
 RS = [0.0, 2.0 ** -30, 0.5, 1 - 2.0 ** -20, 1.0, 1 + 2.0 ** -20, 2.0, 2.5, 3.0, 7.3]
